@@ -108,6 +108,19 @@ type runner struct {
 	// tainted: an engine-style Revert was rejected and the harness went on without an expected
 	// root; the application's root record is then not the engine's, so restarts are skipped.
 	tainted bool
+	// crash stream: directory of the DB on fs ("" = FS root, needed on the strict MemFS) and
+	// callbacks around the targeted call (Commit / Revert / Init) of operation stepOp.
+	inExtra    bool
+	dbPath     string
+	stepKind   string
+	stepOp     int
+	stepBefore func()
+	stepAfter  func() bool // true: stop the run here (the crash run abandons the process)
+}
+
+// step brackets the targeted call of the crash stream; returns true if the run stops.
+func (r *runner) stepping(kind string) bool {
+	return r.stepKind == kind && r.op == r.stepOp && r.stepBefore != nil
 }
 
 var chainID = []byte{4, 0, 0, 9}
@@ -184,7 +197,7 @@ func (r *runner) abiErr(name string, err error) {
 // environment
 
 func (r *runner) open() error {
-	sdb, err := db.NewDBWithFS("state", r.fs, &pebble.Options{MemTableSize: 1 << 20})
+	sdb, err := db.NewDBWithFS(r.dbPath, r.fs, &pebble.Options{MemTableSize: 1 << 20})
 	if err != nil {
 		return err
 	}
@@ -632,11 +645,19 @@ func (r *runner) pass(blk *Block, header *blockchain.BlockHeader, prev tip, real
 
 	// Commit as pkg/consensus does: expected root = the block header's state root
 	var cresp *labi.CommitResponse
+	stepping := r.stepping("commit") && !r.inExtra
+	if stepping {
+		r.stepBefore()
+	}
 	if err := r.call("Commit", func() (e error) {
 		cresp, e = r.h.Commit(&labi.CommitRequest{ContextID: ctxID, StateRoot: prev.root, ExpectedStateRoot: root, DryRun: false})
 		return
 	}); err != nil {
 		r.abiErr("Commit", err)
+		return nil, false
+	}
+	if stepping && r.stepAfter() {
+		r.abort("crash-step-done")
 		return nil, false
 	}
 	if !bytes.Equal(cresp.StateRoot, root) {
@@ -836,11 +857,19 @@ func (r *runner) revertTop() bool {
 	// earlier engine-style Revert was rejected (tainted), in which case it is the root of the
 	// tree the application really has.
 	var resp *labi.RevertResponse
+	stepping := r.stepping("revert")
+	if stepping {
+		r.stepBefore()
+	}
 	err := r.call("Revert", func() (e error) {
 		resp, e = r.h.Revert(&labi.RevertRequest{ContextID: ctxID, StateRoot: cur.root, ExpectedStateRoot: prev.header.StateRoot})
 		return
 	})
 	if r.dead() {
+		return false
+	}
+	if stepping && r.stepAfter() {
+		r.abort("crash-step-done")
 		return false
 	}
 	engineStyleOK := err == nil
@@ -899,11 +928,14 @@ func (r *runner) restart(op *Op) bool {
 		return true
 	}
 	engineLen := len(r.chain)
+	r.inExtra = true
 	for _, blk := range op.Extra {
 		if !r.runBlock(blk) {
+			r.inExtra = false
 			return false
 		}
 	}
+	r.inExtra = false
 	ahead := len(r.chain) - engineLen
 	engine := r.chain[engineLen-1]
 	r.out.evals++
@@ -917,11 +949,19 @@ func (r *runner) restart(op *Op) bool {
 		}
 	}
 	r.newHandler()
+	stepping := r.stepping("init")
+	if stepping {
+		r.stepBefore()
+	}
 	err := r.call("Init", func() error {
 		_, e := r.h.Init(&labi.InitRequest{ChainID: chainID, LastBlockHeight: engine.height, LastStateRoot: engine.header.StateRoot})
 		return e
 	})
 	if r.dead() {
+		return false
+	}
+	if stepping && r.stepAfter() {
+		r.abort("crash-step-done")
 		return false
 	}
 	if m := reInitConflict.FindStringSubmatch(fmt.Sprint(err)); err != nil && m != nil {
@@ -1029,8 +1069,15 @@ var silentLogger = func() log.Logger {
 
 // runPlan executes a plan on a fresh environment and returns everything observed.
 func runPlan(p *Plan) *outcome {
+	r := newRunner(p, vfs.NewMem(), "state")
+	defer r.close()
+	r.run()
+	return r.out
+}
+
+func newRunner(p *Plan, fs vfs.FS, dbPath string) *runner {
 	out := &outcome{counts: map[string]int{}, nontrivial: map[string]struct{}{}}
-	r := &runner{plan: p, out: out, fs: vfs.NewMem(), mod: newVmod(), logger: silentLogger, op: -1}
+	r := &runner{plan: p, out: out, fs: fs, dbPath: dbPath, mod: newVmod(), logger: silentLogger, op: -1}
 	if err := r.open(); err != nil {
 		panic("harness: open: " + err.Error())
 	}
@@ -1039,9 +1086,13 @@ func runPlan(p *Plan) *outcome {
 		panic("harness: open: " + err.Error())
 	}
 	r.moduleDB = mdb
-	defer r.close()
+	return r
+}
+
+func (r *runner) run() {
+	p, out := r.plan, r.out
 	if !r.genesisBlock() {
-		return out
+		return
 	}
 	for i := range p.Ops {
 		if r.dead() {
@@ -1061,10 +1112,9 @@ func runPlan(p *Plan) *outcome {
 	r.count("read_iterate_disagrees_with_get(C12 subject, not judged)", r.mod.rec.iterDisagree)
 	r.count("read_has_disagrees_with_get", r.mod.rec.hasDisagree)
 	r.count("commands_executed", r.mod.rec.executed)
-	if out.aborted != "" {
+	if out.aborted != "" && out.aborted != "crash-step-done" {
 		r.count("cases_ended_early", 1)
 	}
-	return out
 }
 
 func sortedKeys(m map[string]struct{}) []string {
